@@ -81,6 +81,58 @@ theorem emit_eq (s : St) (a : GAct) : emit s a = tch s (a :: s.script) s.nIssued
 @[simp] theorem tch_nextReq (s a n) : (tch s a n).nextReq = s.nextReq := rfl
 @[simp] theorem getL_tch (s a n r l) : getL (tch s a n) r l = getL s r l := rfl
 
+/-- conditional getter reads: the `if`s are hidden in `iteS`, `iteN`, `rsIf` so that the only
+    visible `if`s of a normalised step are its control flow -/
+def iteS (b : Prop) [Decidable b] (a a' : List GAct) : List GAct := if b then a else a'
+def iteN (b : Prop) [Decidable b] (n n' : Nat) : Nat := if b then n else n'
+def rsIf (b : Prop) [Decidable b] (o : Option Slot) : Option Slot := if b then rsSlot o else o
+
+theorem readIf_pair (b : Prop) [Decidable b] (s : St) (a n) (o : Option Slot) :
+    (if b then (tch s a n, rsSlot o) else (s, o)) = (tch s (iteS b a s.script) (iteN b n s.nIssued), rsIf b o) := by
+  unfold iteS iteN rsIf; split <;> rfl
+
+theorem readUnless_pair (b : Prop) [Decidable b] (s : St) (a n) (o : Option Slot) :
+    (if b then (s, o) else (tch s a n, rsSlot o)) =
+      (tch s (iteS b s.script a) (iteN b s.nIssued n), rsIf (¬ b) o) := by
+  unfold iteS iteN rsIf
+  by_cases h : b <;> simp [h]
+  rfl
+
+theorem readIf_pair2 (b : Prop) [Decidable b] (s : St) (a n a' n') (o : Option Slot) :
+    (if b then (tch s a n, rsSlot o) else (tch s a' n', o)) = (tch s (iteS b a a') (iteN b n n'), rsIf b o) := by
+  unfold iteS iteN rsIf; split <;> rfl
+
+theorem readUnless_pair2 (b : Prop) [Decidable b] (s : St) (a n a' n') (o : Option Slot) :
+    (if b then (tch s a' n', o) else (tch s a n, rsSlot o)) =
+      (tch s (iteS b a' a) (iteN b n' n), rsIf (¬ b) o) := by
+  unfold iteS iteN rsIf
+  by_cases h : b <;> simp [h]
+
+@[simp] theorem map_val_rsIf (b : Prop) [Decidable b] (o : Option Slot) :
+    Option.map (fun x => x.val) (rsIf b o) = Option.map (fun x => x.val) o := by
+  unfold rsIf; split
+  · exact map_val_rsSlot o
+  · rfl
+
+@[simp] theorem rsIf_isNone (b : Prop) [Decidable b] (o : Option Slot) : (rsIf b o).isNone = o.isNone := by
+  unfold rsIf; split
+  · exact rsSlot_isNone o
+  · rfl
+
+@[simp] theorem rsIf_isSome (b : Prop) [Decidable b] (o : Option Slot) : (rsIf b o).isSome = o.isSome := by
+  unfold rsIf; split
+  · exact rsSlot_isSome o
+  · rfl
+
+@[simp] theorem rsIf_eq_none (b : Prop) [Decidable b] (o : Option Slot) : (rsIf b o = none) = (o = none) := by
+  unfold rsIf; split
+  · exact rsSlot_eq_none o
+  · rfl
+
+/-- normal form of a per-rank step: all getter reads folded into one `tch` -/
+macro "norm_reads" loc:(Lean.Parser.Tactic.location)? : tactic =>
+  `(tactic| simp only [readSlot_eq, readIf_pair, readUnless_pair, readIf_pair2, readUnless_pair2, tch_tch, getL_tch, tch_script, tch_nIssued] $[$loc]?)
+
 @[simp] theorem setL_err (s r l x) : (setL s r l x).err = s.err := rfl
 @[simp] theorem setL_script (s r l x) : (setL s r l x).script = s.script := rfl
 @[simp] theorem setL_nIssued (s r l x) : (setL s r l x).nIssued = s.nIssued := rfl
@@ -355,5 +407,56 @@ theorem forRanks_effQ (Q : St → Prop) (c : Cfg) (f : St → Nat → St) (l : N
   · rintro ⟨h1, h2⟩
     exact ⟨r', mem_worldRanks.mpr h1, rfl, h2⟩
 
+
+/-- a fold whose steps keep `Inv`, keep `Good`, and whose step `a` establishes `Good` -/
+theorem foldl_est {α} (Inv Good : St → Prop) (f : St → α → St) (xs : List α) (a : α) (ha : a ∈ xs)
+    (hmono : ∀ s x, OK (f s x) → OK s)
+    (hinv : ∀ s x, x ∈ xs → Inv s → OK (f s x) → Inv (f s x))
+    (hkeep : ∀ s x, x ∈ xs → Inv s → Good s → OK (f s x) → Good (f s x))
+    (hest : ∀ s, Inv s → OK (f s a) → Good (f s a))
+    (s : St) (h0 : Inv s) (he : OK (xs.foldl f s)) : Inv (xs.foldl f s) ∧ Good (xs.foldl f s) := by
+  induction xs generalizing s with
+  | nil => simp at ha
+  | cons x t ih =>
+    simp only [List.foldl_cons] at he ⊢
+    have h1 : OK (f s x) := foldl_ok f hmono t _ he
+    have hi1 := hinv s x (by simp) h0 h1
+    by_cases hax : a = x
+    · subst hax
+      have hg1 := hest s h0 h1
+      exact foldl_inv (fun s => Inv s ∧ Good s) f t _ hmono
+        (fun s y hy ⟨hi, hg⟩ hok => ⟨hinv s y (by simp [hy]) hi hok, hkeep s y (by simp [hy]) hi hg hok⟩)
+        ⟨hi1, hg1⟩ he
+    · have hat : a ∈ t := by
+        rcases List.mem_cons.mp ha with h | h
+        · exact absurd h hax
+        · exact h
+      exact ih hat (fun s y hy => hinv s y (by simp [hy])) (fun s y hy => hkeep s y (by simp [hy])) _ hi1 he
+
+theorem Eff.comp {c s s1 s2 K G1 G2} (h1 : Eff c s s1 K G1) (h2 : Eff c s1 s2 K G2) :
+    Eff c s s2 K (fun r l v => G2 r l (G1 r l v)) :=
+  ⟨h1.same.trans h2.same, h2.shape, fun r l k => by rw [h2.hit r l k, h1.hit r l k],
+   fun r l k => by rw [h2.miss r l k, h1.miss r l k]⟩
+
+theorem Eff.congrG {c s s' K G G'} (h : Eff c s s' K G)
+    (hg : ∀ r l, K r l → G r l (cell s r l) = G' r l (cell s r l)) : Eff c s s' K G' :=
+  ⟨h.same, h.shape, fun r l k => by rw [h.hit r l k, hg r l k], h.miss⟩
+
+/-- finish a normalised per-rank step `OK (F s) → Eff c s (F s) K G`: split the control flow;
+    raising leaves contradict `OK`, the others are a `setL` after bookkeeping -/
+macro "step_leaves" hs:ident hr:ident hl:ident "[" defs:Lean.Parser.Tactic.simpLemma,* "]" : tactic =>
+  `(tactic| ((repeat' split) <;>
+      (intro he
+       first
+         | (simp at he; done)
+         | (apply Eff.setL_tch $hs $hr $hl
+            first
+              | (simp_all [lv, cell, $defs,*]; done)
+              | (simp_all [lv, cell, $defs,*]; grind)
+              | (simp [lv, cell, $defs,*]; grind)))))
+
+/-- `OK (F s) → OK s` for a normalised per-rank step -/
+macro "step_ok" he:ident : tactic =>
+  `(tactic| ((repeat' split at $he:ident) <;> first | exact $he | (simp at $he:ident; done)))
 
 end KV.Refine
